@@ -16,6 +16,7 @@ type omap struct {
 	n       int
 	id      int
 	loc     *location
+	elemT   types.Type
 }
 
 func makeMap(kt types.Type, reserve int64) value {
